@@ -414,3 +414,114 @@ Proof.
   split; [exact (foreign_read mx sh v a Hv Ha)|]. split; [exact (abs_state_of mx a)|].
   split; [exact (abs_ok_wfc mx sh a Ha)|exact (reserialize_canonical mx a)].
 Qed.
+
+(* ---------- the reader of the signed counter types ---------- *)
+Lemma read_cells_sg_not_stuck sg mx : forall n bs, read_cells_sg sg mx n bs <> Stuck.
+Proof.
+  induction n as [|n IH]; intros bs; cbn [read_cells_sg]; [discriminate|].
+  destruct (length bs <? 8)%nat; [discriminate|]. destruct (negb _); [discriminate|].
+  specialize (IH (skipn 8 bs)). destruct (read_cells_sg sg mx n (skipn 8 bs)); cbn [obind]; congruence.
+Qed.
+
+Theorem deserialize_sg_never_stuck sg mx sh bs : cm_deserialize_sg sg mx sh bs <> Stuck.
+Proof.
+  unfold cm_deserialize_sg. pose proof (parse_header_not_stuck sh bs) as Hh.
+  destruct (cm_parse_header sh bs) as [[[[nh nb] flags] entries]| |]; cbn [obind]; try congruence.
+  destruct (negb (N.land _ _ =? 0)); [discriminate|]. destruct (_ <? _); [discriminate|].
+  pose proof (read_cells_sg_not_stuck sg mx (S (N.to_nat entries)) (skipn 16 bs)) as H.
+  destruct (read_cells_sg _ _ _ _) as [[|t cs]| |]; cbn [obind]; try congruence.
+  destruct (is_neg sg t); [discriminate|]. destruct (negb (forallb _ cs)); [discriminate|].
+  destruct (existsb _ cs); discriminate.
+Qed.
+
+(* cells that are not negative are read exactly as the plain reader reads them *)
+Lemma read_cells_sg_plain sg mx : forall n bs cs,
+  read_cells_sg sg mx n bs = Ok cs -> existsb (is_neg sg) cs = false -> read_cells mx n bs = Ok cs.
+Proof.
+  induction n as [|n IH]; intros bs cs H Hn; cbn [read_cells_sg read_cells] in *; [exact H|].
+  destruct (length bs <? 8)%nat; [discriminate|].
+  remember (le_val (firstn 8 bs)) as v eqn:Ev. clear Ev.
+  destruct (cell_in_range sg mx v) eqn:Er; cbn [negb] in H; [|discriminate].
+  destruct (read_cells_sg sg mx n (skipn 8 bs)) as [r| |] eqn:E; cbn [obind] in H; try discriminate.
+  injection H as <-. cbn [existsb] in Hn. apply Bool.orb_false_elim in Hn as [Hv Hr].
+  unfold cell_in_range in Er. rewrite Hv in Er. cbn [andb] in Er. rewrite Bool.orb_false_r in Er.
+  replace (mx <? v) with false by lia.
+  rewrite (IH _ _ E Hr). reflexivity.
+Qed.
+
+Lemma read_cells_plain_sg sg mx : forall n bs cs,
+  read_cells mx n bs = Ok cs -> read_cells_sg sg mx n bs = Ok cs.
+Proof.
+  induction n as [|n IH]; intros bs cs H; cbn [read_cells_sg read_cells] in *; [exact H|].
+  destruct (length bs <? 8)%nat; [discriminate|].
+  remember (le_val (firstn 8 bs)) as v eqn:Ev. clear Ev.
+  destruct (N.ltb_spec mx v); [discriminate|].
+  destruct (read_cells mx n (skipn 8 bs)) as [r| |] eqn:E; cbn [obind] in H; try discriminate.
+  injection H as <-. unfold cell_in_range. replace (v <=? mx) with true by lia. cbn [orb negb].
+  rewrite (IH _ _ E). reflexivity.
+Qed.
+
+Lemma forallb_bound_plain sg t cs :
+  existsb (is_neg sg) cs = false -> forallb (cell_in_bound sg t) cs = forallb (fun c => c <=? t) cs.
+Proof.
+  induction cs as [|c cs IH]; cbn [existsb forallb]; [reflexivity|]. intros H.
+  apply Bool.orb_false_elim in H as [Hc Hr]. unfold cell_in_bound at 1. rewrite Hc, (IH Hr). reflexivity.
+Qed.
+
+(* what the signed reader keeps is exactly what the plain reader returns ... *)
+Theorem deserialize_sg_some sg mx sh bs s :
+  cm_deserialize_sg sg mx sh bs = Ok (Some s) -> cm_deserialize mx sh bs = Ok s.
+Proof.
+  unfold cm_deserialize_sg, cm_deserialize.
+  destruct (cm_parse_header sh bs) as [[[[nh nb] flags] entries]| |]; cbn [obind]; try discriminate.
+  destruct (negb (N.land _ _ =? 0)); [intros H; injection H as <-; reflexivity|].
+  destruct (_ <? _); [discriminate|].
+  destruct (read_cells_sg sg mx _ _) as [[|t cs]| |] eqn:E; cbn [obind]; try discriminate.
+  destruct (is_neg sg t) eqn:Et; [discriminate|].
+  destruct (forallb (cell_in_bound sg t) cs) eqn:Eb; cbn [negb]; [|discriminate].
+  destruct (existsb (is_neg sg) cs) eqn:En; [discriminate|].
+  intros H; injection H as <-.
+  rewrite (read_cells_sg_plain sg mx _ _ _ E) by (cbn [existsb]; rewrite Et, En; reflexivity).
+  cbn [obind]. rewrite <- (forallb_bound_plain sg t cs En), Eb. reflexivity.
+Qed.
+
+(* ... and conversely, when the counter type's maximum is below 2^63 whenever it is signed *)
+Theorem deserialize_plain_sg sg mx sh bs s :
+  (sg = true -> mx < 9223372036854775808) ->
+  cm_deserialize mx sh bs = Ok s -> cm_deserialize_sg sg mx sh bs = Ok (Some s).
+Proof.
+  intros Hs. unfold cm_deserialize_sg, cm_deserialize.
+  destruct (cm_parse_header sh bs) as [[[[nh nb] flags] entries]| |]; cbn [obind]; try discriminate.
+  destruct (negb (N.land _ _ =? 0)); [intros H; injection H as <-; reflexivity|].
+  destruct (_ <? _); [discriminate|].
+  destruct (read_cells mx _ _) as [[|t cs]| |] eqn:E; cbn [obind]; try discriminate.
+  destruct (forallb (fun c => c <=? t) cs) eqn:Eb; [|discriminate].
+  intros H; injection H as <-.
+  rewrite (read_cells_plain_sg sg mx _ _ _ E). cbn [obind].
+  apply read_cells_ok in E as (_ & Hf & _). inversion Hf as [|? ? Ht Hcs]; subst.
+  assert (Hnn : forall v, v <= mx -> is_neg sg v = false).
+  { intros v Hv. unfold is_neg. destruct sg; [|reflexivity]. cbn [andb]. specialize (Hs eq_refl). lia. }
+  rewrite (Hnn t Ht).
+  assert (En : existsb (is_neg sg) cs = false).
+  { clear -Hcs Hnn. induction Hcs as [|c cs Hc _ IH]; [reflexivity|]. cbn [existsb]. rewrite (Hnn c Hc), IH. reflexivity. }
+  rewrite (forallb_bound_plain sg t cs En), Eb, En. reflexivity.
+Qed.
+
+(* for the unsigned types the two readers are the same function *)
+Theorem deserialize_sg_unsigned mx sh bs :
+  cm_deserialize_sg false mx sh bs = match cm_deserialize mx sh bs with Ok s => Ok (Some s) | Err => Err | Stuck => Stuck end.
+Proof.
+  destruct (cm_deserialize mx sh bs) as [s| |] eqn:E.
+  - apply deserialize_plain_sg; [discriminate|exact E].
+  - destruct (cm_deserialize_sg false mx sh bs) as [[s|]| |] eqn:E2; try reflexivity.
+    + apply deserialize_sg_some in E2. congruence.
+    + exfalso. revert E2. unfold cm_deserialize_sg.
+      destruct (cm_parse_header sh bs) as [[[[nh nb] flags] entries]| |]; cbn [obind]; try discriminate.
+      destruct (negb (N.land _ _ =? 0)); [discriminate|]. destruct (_ <? _); [discriminate|].
+      destruct (read_cells_sg false mx _ _) as [[|t cs]| |]; cbn [obind]; try discriminate.
+      cbn [is_neg andb]. destruct (negb _); [discriminate|].
+      replace (existsb (is_neg false) cs) with false; [discriminate|].
+      clear. induction cs as [|c cs IH]; [reflexivity|]. cbn [existsb is_neg andb orb]. exact IH.
+    + exfalso. exact (deserialize_sg_never_stuck false mx sh bs E2).
+  - exfalso. exact (deserialize_never_stuck mx sh bs E).
+Qed.
